@@ -56,8 +56,8 @@ func newReq(src int) *http.Request {
 }
 
 // scenario: one thread per entry of sources; panics[i] makes thread i's handler panic.
-func scenario(prop string, limit int64, sources []int, panics []bool, bound int) *sched.Scenario {
-	name := fmt.Sprintf("connlimit/limit=%d/sources=%v/panics=%v/bound=%d", limit, sources, panics, bound)
+func scenario(prop string, limit int64, sources []int, panics []bool, bound int, verbose bool) *sched.Scenario {
+	name := fmt.Sprintf("connlimit/limit=%d/sources=%v/panics=%v/bound=%d/verbose=%v", limit, sources, panics, bound, verbose)
 	sc := &sched.Scenario{Name: name, Bound: bound, Info: map[string]any{"limit": limit, "sources": sources, "panics": panics}}
 	sc.New = func() *sched.Instance {
 		w := &world{prop: prop, limit: limit, sources: sources, panics: panics, status: make([]int, len(sources))}
@@ -73,7 +73,11 @@ func scenario(prop string, limit int64, sources []int, panics []bool, bound int)
 			}
 			rw.WriteHeader(200)
 		})
-		cl, err := connlimit.New(handler, extractor(), limit)
+		var opts []connlimit.Option
+		if verbose {
+			opts = append(opts, connlimit.Verbose(true), connlimit.Logger(lib.FormatLogger{}))
+		}
+		cl, err := connlimit.New(handler, extractor(), limit, opts...)
 		if err != nil {
 			panic(err)
 		}
@@ -198,7 +202,11 @@ func scenariosFor(prop string, nthreads, bound int) []*sched.Scenario {
 				for i := range p {
 					p[i] = mask&(1<<i) != 0
 				}
-				out = append(out, scenario(prop, limit, a, p, bound))
+				out = append(out, scenario(prop, limit, a, p, bound, false))
+				if mask != 0 && mask&(mask-1) == 0 || mask == 1<<nthreads-1 {
+					// non-default options (verbose logging through a formatting logger): one panic / all panic patterns
+					out = append(out, scenario(prop, limit, a, p, bound, true))
+				}
 			}
 		}
 	}
